@@ -144,12 +144,17 @@ func init() {
 			if tier == "thorough" {
 				depths = append(depths, 2000)
 			}
-			sp = append(sp, h.Space{Name: "nesting-depth", Count: uint64(len(depths) * 3), ChunkHint: 1,
-				Describe: func(i uint64) interface{} { return fmt.Sprintf("depth %d variant %d", depths[i/3], i%3) },
+			depths = append(depths, 16, 24, 32, 48, 64, 200)
+			sp = append(sp, h.Space{Name: "nesting-depth", Count: uint64(len(depths) * 5), ChunkHint: 1,
+				Describe: func(i uint64) interface{} { return fmt.Sprintf("depth %d variant %d", depths[i/5], i%5) },
 				Run: func(c *h.Ctx, i uint64) {
-					d := depths[i/3]
+					d := depths[i/5]
 					var text string
-					switch i % 3 {
+					switch i % 5 {
+					case 3: // balanced, a variable in the innermost list (every enclosing list has to list it)
+						text = "S1F1 " + strings.Repeat("<L ", d) + "<U2 svid>" + strings.Repeat(">", d) + " ."
+					case 4: // balanced, an ASCII variable and a list variable in the innermost list, a value beside every level
+						text = "S1F1 " + strings.Repeat("<L <B 1> ", d) + "<A[..8] nm> item" + strings.Repeat(">", d) + " ."
 					case 0: // balanced
 						text = "S1F1 " + strings.Repeat("<L ", d) + strings.Repeat(">", d) + " ."
 					case 1: // unbalanced (never closed)
@@ -158,8 +163,8 @@ func init() {
 						text = "S1F1 " + strings.Repeat("<L <U1 1> ", d) + strings.Repeat("... >", d) + " ."
 					}
 					ms, out := totalParse(c, "nesting", text)
-					if i%3 != 1 && out == "rejected" {
-						c.Fail("valid-nesting-rejected", fmt.Sprintf("depth %d variant %d", d, i%3), "rejected")
+					if i%5 != 1 && out == "rejected" {
+						c.Fail("valid-nesting-rejected", fmt.Sprintf("depth %d variant %d", d, i%5), "rejected")
 					}
 					_ = ms
 					c.Case(0, true, out)
@@ -213,7 +218,8 @@ func init() {
 			}
 			// "+i": every duplicate declares one character more than the one before (a placeholder that is rebuilt whenever
 			// the declared size grows is no better than one per duplicate)
-			dupDecls := []string{"[16777215]", "[1099511627776]", "[16777215..]", "[..16777215]", "[1000000]", "", "+i"}
+			dupDecls := []string{"[16777215]", "[1099511627776]", "[16777215..]", "[..16777215]", "[1000000]", "", "+i",
+				"[4611686018427387904]", "[4611686018427387905]", "[9223372036854775807..]", "[9223372036854775807]", "[99999999999999999999]", "[4611686018427387905..9223372036854775807]"}
 			sp = append(sp, h.Space{Name: "duplicated-ascii-variables-with-huge-declarations", Count: product(len(dupCounts), len(dupDecls), 2), ChunkHint: 1,
 				Describe: func(i uint64) interface{} {
 					d := unrank(i, len(dupCounts), len(dupDecls), 2)
